@@ -248,3 +248,26 @@ func max0(k int) int {
 	}
 	return 0
 }
+
+// HugeExp splits a numeral whose exponent has more than 5 digits after its leading zeros, i.e. lies
+// beyond +-100000: mantissa sign, whether the mantissa is zero, exponent sign. ok=false for every
+// other numeral.
+func HugeExp(tok string) (neg, zero, expNeg, ok bool) {
+	i := strings.IndexAny(tok, "eE")
+	if i < 0 {
+		return
+	}
+	e := tok[i+1:]
+	if e[0] == '+' || e[0] == '-' {
+		expNeg = e[0] == '-'
+		e = e[1:]
+	}
+	e = strings.TrimLeft(e, "0")
+	if len(e) < 6 || (len(e) == 6 && e == "100000") {
+		return false, false, false, false
+	}
+	m := tok[:i]
+	neg = strings.HasPrefix(m, "-")
+	zero = strings.Trim(m, "-0.") == ""
+	return neg, zero, expNeg, true
+}
